@@ -379,6 +379,8 @@ class ProgGen:
     def render(self, items):
         out = []
         for it in items:
+            if it == ("noop",):
+                continue
             if isinstance(it, tuple) and it[0] == "gap":
                 k = it[1]
                 if k == "w":
@@ -456,7 +458,7 @@ class ProgGen:
         n = self.rng.choice([0, 0, 0, 1, 1, 2]) if depth > 0 else 0
         for _ in range(n):
             op = self.rng.choice(["+", "-", "*", "/", "+", "-", "==", "!=", "&&", "||", "^", "<", ">", "<=", ">=", "<<", ">>", "%"])
-            tight = op in ("+", "-", "*", "/", "==", "!=", "&&", "||", "^")
+            tight = op in ("+", "-", "*", "==", "!=", "&&", "||", "^")   # not "/": `/` + `*` or `/` + a comment would start a comment
             g = G.w if tight and self.rng.random() < 0.5 else G.W
             items += [g, op, g] + self.factor(depth - 1)
         self.bump("expressions")
@@ -480,7 +482,7 @@ class ProgGen:
         self.bump("instructions")
         if r < 0.22:
             self.bump("am_implied")
-            return [self.case(self.rng.choice(IMPLIED + ACC))]
+            return [self.case(self.rng.choice(IMPLIED + ACC)), ("noop",)]
         if r < 0.42:
             self.bump("am_immediate")
             return [self.case(self.rng.choice(IMM)), G.w if self.rng.random() < 0.3 else G.W, "#", G.w] + self.small_expr()
@@ -729,12 +731,16 @@ class ProgGen:
 
     def render_program(self, items):
         """resolve statement separators: a newline-containing gap, or (class same_line) only spaces"""
-        out, first = [], True
+        out, first, prev_bare = [], True, False
         for it in items:
+            if it == ("noop",):
+                prev_bare = True
+                continue
             if it == ("sep",):
+                bare, prev_bare = prev_bare, False
                 if first:
                     out.append(self.multi_gap() if self.rng.random() < 0.3 else "")
-                elif "same_line" in self.cls and self.rng.random() < 0.3 and not self._ends_in_line_comment(out):
+                elif "same_line" in self.cls and self.rng.random() < 0.3 and not bare and not self._ends_in_line_comment(out):
                     out.append(self.inline_gap(True))
                     self.bump("same_line_separators")
                 else:
@@ -752,7 +758,10 @@ class ProgGen:
         return "//" in last
 
     def program(self):
-        items = self.statements(self.size, 0)
+        items = []
+        if self.lib and self.rng.random() < 0.85:
+            items += [("sep",)] + self.import_()
+        items += self.statements(self.size, 0)
         src = self.render_program(items)
         r = self.rng.random()
         if r < 0.5:
